@@ -432,6 +432,24 @@ func C18(t Tier) int {
 			return &k, k.FromByteSlices(b)
 		},
 	}
+	typedFromStrings := map[string]func([]string) (compkey.CompositeKey, error){
+		"owner": func(b []string) (compkey.CompositeKey, error) {
+			var k aoltypes.OwnerCompositeKey
+			return &k, k.FromStrings(b)
+		},
+		"topic": func(b []string) (compkey.CompositeKey, error) {
+			var k aoltypes.TopicCompositeKey
+			return &k, k.FromStrings(b)
+		},
+		"writer": func(b []string) (compkey.CompositeKey, error) {
+			var k aoltypes.WriterCompositeKey
+			return &k, k.FromStrings(b)
+		},
+		"record": func(b []string) (compkey.CompositeKey, error) {
+			var k aoltypes.RecordCompositeKey
+			return &k, k.FromStrings(b)
+		},
+	}
 	partMenu := [][]byte{{}, {0x01}, good, bytes.Repeat([]byte{0x02}, 255), bytes.Repeat([]byte{0x03}, 256)}
 	for l := 0; l <= 10; l++ {
 		partMenu = append(partMenu, bytes.Repeat([]byte{0x09}, l))
@@ -462,6 +480,22 @@ func C18(t Tier) int {
 							lens = append(lens, len(c))
 						}
 						fail("truncation", fmt.Sprintf("truncation:%s.FromByteSlices", name), "%s.FromByteSlices accepted component lengths %v but represents %s instead of %s", name, lens, tupleStr(k.ByteSlices()), tupleStr(in))
+					}
+					// accepted bytes are a key of that type: its string form (the genesis form) must decode back to the same key
+					var strs []string
+					var back compkey.CompositeKey
+					var serr error
+					if p := guard(func() {
+						strs = k.Strings()
+						back, serr = typedFromStrings[name](strs)
+					}); p != "" {
+						fail("panic", fmt.Sprintf("panic:%s.string-form", name), "%s: string form of an accepted key panicked: %s", name, p)
+					} else if serr != nil || !tupleEq(back.ByteSlices(), in) {
+						lens := []int{}
+						for _, c := range in {
+							lens = append(lens, len(c))
+						}
+						fail("typed", fmt.Sprintf("typed:%s.accepted-bytes-without-string-form", name), "%s.FromByteSlices accepted component lengths %v but the string form %q does not decode back to it (err=%v)", name, lens, strs, serr)
 					}
 				}
 				return
